@@ -9,6 +9,10 @@ Plain == {"plain"}
 AllDecorations == {"plain", "logDebug", "logCritical", "pluginsEmpty", "shortUntil", "untilEquals", "optionsLast"}
 SomeKinds == {"accepted", "fieldRejected", "dupRejected", "missing"}
 SomeUntils == {"absent", "k2", "0"}
+NoHeader == {0}
+SomeHeaders == {1, 2}
+HeaderKinds == {"accepted", "fieldRejected", "lateDamage"}     \* (a duplicate of a header row is no duplicate: not used here)
+HeaderUntils == {"absent", "0", "k1", "k2", "k9"}
 OneCid == {"valid"}
 NoFiles == {"accepted"}
 =============================================================================
